@@ -108,7 +108,12 @@ def handleStats (focus : String) (c : Case) : String := Id.run do
             return sacc
           | none => 0.0) * wv0 i
       if n ≥ m + p then
-        let (_, sg, _) := jacobiTall H0
+        -- column-equilibrated: a diagonal column scaling of H is not ill-conditioning of the inversion
+        let cn0 : Array Float := (Array.range (m + p)).map fun j => Id.run do
+          let mut a := 0.0
+          for i in [0:n] do a := a + H0.get i j * H0.get i j
+          return if a > 0.0 && a.isFinite then a.sqrt else 1.0
+        let (_, sg, _) := jacobiTall (FMat.ofFn n (m + p) fun i j => H0.get i j / cn0[j]!)
         let smx := arrMaxAbs sg
         let smn := sg.foldl (fun a v => if v < a then v else a) smx
         if smn > 0.0 then smx / smn else 1e300
@@ -154,8 +159,16 @@ def handleStats (focus : String) (c : Case) : String := Id.run do
       | none => 0.0
   let wv (i : Nat) : Float := match wIn with | some wa => wa[i]! | none => 1.0
   let H : FMat := FMat.ofFn n d fun i j => Jf.get i j * wv i
-  let HtH := H.transpose.mul H
-  let (_, sigH, _) := jacobiTall H
+  -- column norms of H: the covariance is judged in the column-equilibrated frame Ĥ = H·D⁻¹,
+  -- D = diag(‖H_j‖); (ĤᵀĤ)⁻¹ = D (HᵀH)⁻¹ D.  Cofactor / LU inversion is (essentially) invariant under
+  -- this scaling, so only κ(Ĥ) limits its accuracy – a signal of amplitude 1e-9 is not a rank defect.
+  let coln : Array Float := (Array.range d).map fun j => Id.run do
+    let mut a := 0.0
+    for i in [0:n] do a := a + H.get i j * H.get i j
+    return if a > 0.0 && a.isFinite then a.sqrt else 1.0
+  let Hs : FMat := FMat.ofFn n d fun i j => H.get i j / coln[j]!
+  let HtH := Hs.transpose.mul Hs
+  let (_, sigH, _) := jacobiTall Hs
   let smaxH := arrMaxAbs sigH
   let sminH := sigH.foldl (fun a v => if v < a then v else a) smaxH
   let kapH := if sminH > 0.0 then smaxH / sminH else 1e300
@@ -189,6 +202,8 @@ def handleStats (focus : String) (c : Case) : String := Id.run do
         acc := { acc with corr := acc.corr.push s!"chi2-model={fmtF ms.reducedChi2}-impl={fmtF chi2I}" }
   -- ---------- C13
   if wantsC13 then
+    let covU := covI            -- as reported (unscaled): sign checks, accessors, correlation
+    let covI : FMat := FMat.ofFn covU.r covU.c fun i j => covU.get i j * coln.getD i 1.0 * coln.getD j 1.0
     let cmaxv := covI.maxAbs
     -- nalgebra's closed-form inverse for d ≤ 4 (cofactors) loses about κ(HᵀH)^1.5 = κ(H)³ (measured: 8.7e-5
     -- relative error at κ(H) = 2.2e4 in f64), so the bound is 1e2·u·κ(H)³·d
@@ -206,7 +221,8 @@ def handleStats (focus : String) (c : Case) : String := Id.run do
       if let some (.ok ms) := modelStats then
         -- compare (HᵀH)⁻¹ = cov/χ² on both sides: the accuracy of χ² itself (cancellation in the
         -- residual, large in f32 for heavily weighted data) is C12's business
-        let mB := (FMat.ofMat ms.covariance).a.map (· / ms.reducedChi2)
+        let mcov := FMat.ofMat ms.covariance
+        let mB := (FMat.ofFn d d fun i j => mcov.get i j * coln[i]! * coln[j]!).a.map (· / ms.reducedChi2)
         let iB := covI.a.map (· / chi2I)
         let bmax := arrMaxAbs iB
         let tolB := invBound * bmax + 1e-300
@@ -214,9 +230,11 @@ def handleStats (focus : String) (c : Case) : String := Id.run do
         if !(dC ≤ tolB) then acc := { acc with corr := acc.corr.push s!"covariance/chi2:maxdiff={fmtF dC}>tol={fmtF tolB}" }
     else acc := { acc with skips := acc.skips + 1 }
     acc := { acc with compared := acc.compared + 4 }
+    let wellDet := tolCov ≤ 5e-2 * cmaxv
+    let covI := covU
     -- a numerically singular HᵀH (non-identifiable model) has no meaningful inverse: the sign of the
     -- diagonal is only checked where the inverse is determined to better than 5 %
-    if tolCov ≤ 5e-2 * cmaxv then
+    if wellDet then
       for i in [0:d] do
         if !(covI.get i i ≥ 0.0) then acc := { acc with mon := acc.mon.push s!"negative-variance-at-{i}" }
     -- the variance accessors are exactly the diagonal segments
@@ -233,7 +251,7 @@ def handleStats (focus : String) (c : Case) : String := Id.run do
       let sq := rw (covI.get i i * covI.get i i)
       if covI.get i i > 0.0 && sq.isFinite && sq > 1e-30 && !((corrI.get i i - 1.0).abs ≤ 8.0 * u) then
         acc := { acc with mon := acc.mon.push s!"correlation-diagonal≠1-at-{i}" }
-    if tolCov ≤ 5e-2 * cmaxv then
+    if wellDet then
       for i in [0:d] do
         for j in [0:d] do
           if !((corrI.get i j).abs ≤ 1.0 + invBound) then
@@ -275,8 +293,14 @@ def handleStats (focus : String) (c : Case) : String := Id.run do
               acc := { acc with mon := acc.mon.push s!"band-not-finite-nonneg-p={fmtF pr}" }
             let t := tQuantileTwoSided pr dof
             let expect := ucs.map (· * t)
-            let tolB := (if dof ≤ 2 then 1e-9 else 3e-3) * t * qscale + invBound * t * qscale + 1e-300
-            if tolB ≤ 5e-2 * t * qscale then
+            -- the reference quantile is obtained from the two-sided probability itself; next to 1 its
+            -- tail mass 1 − p is known to 2⁻⁵³ absolute only
+            let tailAcc := 64.0 * 1.1e-16 / (1.0 - pr)
+            -- absolute accuracy of the crate's quantile next to q = 1/2 (measured: 4e-11 at p = 1e-6, ν = 2;
+            -- (1+p)/2 is rounded to f64 as well): 1e-9 in units of t
+            let tAbs := 1e-9 * qscale
+            let tolB := ((if dof ≤ 2 then 1e-9 else 3e-3) + tailAcc) * t * qscale + invBound * t * qscale + tAbs + 1e-300
+            if tolB ≤ 5e-2 * t * qscale + tAbs then
               let dB := maxDiff expect band
               if !(dB ≤ tolB) then
                 acc := { acc with mon := acc.mon.push s!"band(p={fmtF pr},dof={dof})≠t·sqrt(jᵀCj):{fmtF dB}>tol={fmtF tolB}" }
